@@ -9,6 +9,10 @@
     * every array access uses the PARTIAL accessor (`a[i]'h`, `a.set i v h`: Lean demands the proof `h : i < a.size`), and
     * where that proof is not available from a run-time test the variant stops with the distinguished outcome `oob`
       (monadic level: `XExit.oob`; call level: `none`);
+    * every probability access names the C MEMBER ARRAY of `lzma_lzma1_decoder` it is meant for (`is_match`, `is_rep`, …,
+      `dist_slot`, `pos_special`, `pos_align`, the five members of each length decoder, `literal`: `M_*` below, as
+      (first index, extent) in the flat model array) and is tested against that member's own bounds as well — an index
+      that strays from `is_match[][]` into `is_rep[]` is inside the flat array but is reported `oob` (audit S-4);
     * dictionary operations additionally test, at every call, the C-LEVEL INDEX EXPRESSIONS of lz_decoder.h against the
       buffer size (the executable model keeps the produced bytes in a growing history instead of the cyclic buffer, so
       these expressions — `DictPos.getIndex`, `pos - 1`, `pos`, `repeatBack + left`, `pos + left` of Model/LzDict.lean,
@@ -52,15 +56,47 @@ theorem unliftR_liftR {α : Type} (r : EStateM.Result Exit St α) : unliftR (lif
 
 /-! ### checked accessors -/
 
-/-- `rc_bit_safe(probs[idx], …)` with the probability read and written through the partial accessors -/
-def rcBitC (idx : Nat) : MC Nat := fun s =>
+/-! The flat model array `probs` is the concatenation of the probability members of `lzma_lzma1_decoder` (layout table in
+    Model/Lzma.lean; Props/C03 `constants_match_code` ties every segment size to `sizeof` of the C member). An index that is
+    inside the flat array but outside the member it is meant for would be an out-of-bounds access of the C member array, so
+    every checked bit decode names its member: first index `lo` and number of elements `ext` — -/
+
+/-- `is_match[STATES][POS_STATES_MAX]` -/
+abbrev M_IS_MATCH : Nat × Nat := (P_IS_MATCH, STATES * POS_STATES_MAX)
+/-- `is_rep[STATES]`, `is_rep0[STATES]`, `is_rep1[STATES]`, `is_rep2[STATES]` -/
+abbrev M_IS_REP : Nat × Nat := (P_IS_REP, STATES)
+abbrev M_IS_REP0 : Nat × Nat := (P_IS_REP0, STATES)
+abbrev M_IS_REP1 : Nat × Nat := (P_IS_REP1, STATES)
+abbrev M_IS_REP2 : Nat × Nat := (P_IS_REP2, STATES)
+/-- `is_rep0_long[STATES][POS_STATES_MAX]` -/
+abbrev M_IS_REP0_LONG : Nat × Nat := (P_IS_REP0_LONG, STATES * POS_STATES_MAX)
+/-- `dist_slot[DIST_STATES][DIST_SLOTS]` -/
+abbrev M_DIST_SLOT : Nat × Nat := (P_DIST_SLOT, DIST_STATES * DIST_SLOTS)
+/-- `pos_special[FULL_DISTANCES - DIST_MODEL_END]` -/
+abbrev M_POS_SPECIAL : Nat × Nat := (P_POS_SPECIAL, FULL_DISTANCES - DIST_MODEL_END)
+/-- `pos_align[ALIGN_SIZE]` -/
+abbrev M_POS_ALIGN : Nat × Nat := (P_POS_ALIGN, ALIGN_SIZE)
+/-- the members of a `lzma_length_decoder` at `lenBase`: `choice`, `choice2`, `low[POS_STATES_MAX][LEN_LOW_SYMBOLS]`,
+    `mid[POS_STATES_MAX][LEN_MID_SYMBOLS]`, `high[LEN_HIGH_SYMBOLS]` -/
+abbrev M_LEN_CHOICE (lenBase : Nat) : Nat × Nat := (lenBase + LEN_CHOICE, 1)
+abbrev M_LEN_CHOICE2 (lenBase : Nat) : Nat × Nat := (lenBase + LEN_CHOICE2, 1)
+abbrev M_LEN_LOW (lenBase : Nat) : Nat × Nat := (lenBase + LEN_LOW, POS_STATES_MAX * LEN_LOW_SYMBOLS)
+abbrev M_LEN_MID (lenBase : Nat) : Nat × Nat := (lenBase + LEN_MID, POS_STATES_MAX * LEN_MID_SYMBOLS)
+abbrev M_LEN_HIGH (lenBase : Nat) : Nat × Nat := (lenBase + LEN_HIGH, LEN_HIGH_SYMBOLS)
+/-- `literal[LITERAL_CODERS_MAX * LITERAL_CODER_SIZE]` (the model array holds its first `0x300 << (lc + lp)` elements — the
+    part `literal_init` initialises — so the size test of the flat array is the tighter one here) -/
+abbrev M_LITERAL : Nat × Nat := (P_LITERAL, LITERAL_CODER_SIZE <<< LZMA_LCLP_MAX)
+
+/-- `rc_bit_safe(probs[idx], …)` with the probability read and written through the partial accessors; `m = (lo, ext)` is the
+    C member array the index is meant for: tested are `lo ≤ idx < lo + ext` (inside its OWN member) and `idx < probs.size` -/
+def rcBitC (m : Nat × Nat) (idx : Nat) : MC Nat := fun s =>
   match rcNormalize s with
   | .error e s => .error (.exit e) s
   | .ok _ s =>
-    if h : idx < s.probs.size then
-      let p := s.probs[idx]
+    if h : idx < s.probs.size ∧ m.1 ≤ idx ∧ idx < m.1 + m.2 then
+      let p := s.probs[idx]'h.1
       let r := bitCore (Rc.mk s.range s.code) p
-      .ok r.1 { s with range := r.2.1.range, code := r.2.1.code, probs := s.probs.set idx r.2.2 h }
+      .ok r.1 { s with range := r.2.1.range, code := r.2.1.code, probs := s.probs.set idx r.2.2 h.1 }
     else .error .oob s
 
 /-- `dict_get(dict, distance)`: tested are the C-level precondition `distance < dict.full`, the C buffer index
@@ -98,48 +134,48 @@ def repeatNC (s : St) (left : Nat) : Option St :=
 
 /-! ### checked symbol decoder (same text as Model/Lzma.lean with the accessors replaced) -/
 
-def bittreeC (base : Nat) : Nat → Nat → MC Nat
+def bittreeC (m : Nat × Nat) (base : Nat) : Nat → Nat → MC Nat
   | 0, sym => pure sym
   | n + 1, sym => do
-    let b ← rcBitC (base + sym)
-    bittreeC base n (sym * 2 + b)
+    let b ← rcBitC m (base + sym)
+    bittreeC m base n (sym * 2 + b)
 
 def litMatchedC (base : Nat) : Nat → Nat → Nat → Nat → MC Nat
   | 0, sym, _, _ => pure sym
   | n + 1, sym, offset, len => do
     let matchBit := len &&& offset
-    let b ← rcBitC (base + offset + matchBit + sym)
+    let b ← rcBitC M_LITERAL (base + offset + matchBit + sym)
     let offset' := if b == 0 then offset ^^^ matchBit else matchBit
     litMatchedC base n (sym * 2 + b) offset' (len * 2)
 
 def revBittreeC (base : Nat) : Nat → Nat → Nat → Nat → MC Nat
   | 0, _, _, acc => pure acc
   | n + 1, sym, offset, acc => do
-    let b ← rcBitC (base + sym)
+    let b ← rcBitC M_POS_SPECIAL (base + sym)
     revBittreeC base n (sym * 2 + b) (offset + 1) (acc + (b <<< offset))
 
 def revAlignC : Nat → Nat → Nat → MC Nat
   | 0, sym, _ => pure sym
   | n + 1, sym, offset => do
-    let b ← rcBitC (P_POS_ALIGN + offset + sym)
+    let b ← rcBitC M_POS_ALIGN (P_POS_ALIGN + offset + sym)
     revAlignC n (sym + b * offset) (offset * 2)
 
 def lenDecodeC (lenBase posState : Nat) : MC Nat := do
-  let c ← rcBitC (lenBase + LEN_CHOICE)
+  let c ← rcBitC (M_LEN_CHOICE lenBase) (lenBase + LEN_CHOICE)
   if c == 0 then
-    let s ← bittreeC (lenBase + LEN_LOW + posState * LEN_LOW_SYMBOLS) 3 1
+    let s ← bittreeC (M_LEN_LOW lenBase) (lenBase + LEN_LOW + posState * LEN_LOW_SYMBOLS) 3 1
     pure (MATCH_LEN_MIN + (s - LEN_LOW_SYMBOLS))
   else
-    let c2 ← rcBitC (lenBase + LEN_CHOICE2)
+    let c2 ← rcBitC (M_LEN_CHOICE2 lenBase) (lenBase + LEN_CHOICE2)
     if c2 == 0 then
-      let s ← bittreeC (lenBase + LEN_MID + posState * LEN_MID_SYMBOLS) 3 1
+      let s ← bittreeC (M_LEN_MID lenBase) (lenBase + LEN_MID + posState * LEN_MID_SYMBOLS) 3 1
       pure (MATCH_LEN_MIN + LEN_LOW_SYMBOLS + (s - LEN_MID_SYMBOLS))
     else
-      let s ← bittreeC (lenBase + LEN_HIGH) 8 1
+      let s ← bittreeC (M_LEN_HIGH lenBase) (lenBase + LEN_HIGH) 8 1
       pure (MATCH_LEN_MIN + LEN_LOW_SYMBOLS + LEN_MID_SYMBOLS + (s - LEN_HIGH_SYMBOLS))
 
 def distDecodeC (len : Nat) : MC Nat := do
-  let slot1 ← bittreeC (P_DIST_SLOT + getDistState len * DIST_SLOTS) 6 1
+  let slot1 ← bittreeC M_DIST_SLOT (P_DIST_SLOT + getDistState len * DIST_SLOTS) 6 1
   let slot := slot1 - DIST_SLOTS
   if slot < DIST_MODEL_START then pure slot
   else
@@ -168,12 +204,12 @@ def matchByteC : MC Nat := fun s =>
 
 def decodeSymbolC (eopmValid : Bool) : MC Pending := do
   let (state, posState, full) ← liftM (fun s : St => EStateM.Result.ok (s.state, s.dp.pos &&& s.posMask, s.dp.full) s)
-  let isMatch ← rcBitC (P_IS_MATCH + state * POS_STATES_MAX + posState)
+  let isMatch ← rcBitC M_IS_MATCH (P_IS_MATCH + state * POS_STATES_MAX + posState)
   if isMatch == 0 then
     let base ← litBaseC
     if isLiteralState state then
       modify fun s => { s with state := updateLiteralNormal state }
-      let sym ← bittreeC base 8 1
+      let sym ← bittreeC M_LITERAL base 8 1
       pure (.litWrite (sym % 256))
     else
       modify fun s => { s with state := updateLiteralMatched state }
@@ -181,7 +217,7 @@ def decodeSymbolC (eopmValid : Bool) : MC Pending := do
       let sym ← litMatchedC base 8 1 0x100 (mb * 2)
       pure (.litWrite (sym % 256))
   else
-    let isRep ← rcBitC (P_IS_REP + state)
+    let isRep ← rcBitC M_IS_REP (P_IS_REP + state)
     if isRep == 0 then
       modify fun s => { s with state := updateMatch state, rep3 := s.rep2, rep2 := s.rep1, rep1 := s.rep0 }
       let len ← lenDecodeC P_MATCH_LEN posState
@@ -197,17 +233,17 @@ def decodeSymbolC (eopmValid : Bool) : MC Pending := do
     else
       if full == 0 then throw (.exit .dataError)
       else
-        let isRep0 ← rcBitC (P_IS_REP0 + state)
+        let isRep0 ← rcBitC M_IS_REP0 (P_IS_REP0 + state)
         let isShort ← (do
           if isRep0 == 0 then
-            let isLong ← rcBitC (P_IS_REP0_LONG + state * POS_STATES_MAX + posState)
+            let isLong ← rcBitC M_IS_REP0_LONG (P_IS_REP0_LONG + state * POS_STATES_MAX + posState)
             pure (isLong == 0)
           else
-            let isRep1 ← rcBitC (P_IS_REP1 + state)
+            let isRep1 ← rcBitC M_IS_REP1 (P_IS_REP1 + state)
             if isRep1 == 0 then
               modify fun s => { s with rep1 := s.rep0, rep0 := s.rep1 }
             else
-              let isRep2 ← rcBitC (P_IS_REP2 + state)
+              let isRep2 ← rcBitC M_IS_REP2 (P_IS_REP2 + state)
               if isRep2 == 0 then
                 modify fun s => { s with rep2 := s.rep1, rep1 := s.rep0, rep0 := s.rep2 }
               else
